@@ -321,7 +321,7 @@ func (r *Runner) Step(st []any, noLS bool) (res string, ack bool) {
 		}()
 	}
 	isLS := strings.HasPrefix(op, "Ls") || strings.HasPrefix(op, "Ck") || op == "Fault" || op == "ClearFaults" || op == "SnapRetention" ||
-		op == "L0Retention" || op == "RetByTXID" || op == "AgeFile" || op == "L0RetentionAbs" || op == "SnapRetentionAbs" || op == "RestoreCheck" || op == "AuditNow" || op == "MetaLost" || op == "Snapshot" || op == "Compact" ||
+		op == "L0Retention" || op == "RetByTXID" || op == "LocalLoss" || op == "AgeFile" || op == "L0RetentionAbs" || op == "SnapRetentionAbs" || op == "RestoreCheck" || op == "AuditNow" || op == "MetaLost" || op == "Snapshot" || op == "Compact" ||
 		strings.HasPrefix(op, "Ret") || op == "ReplaceDb" || op == "SaveCopy" || op == "SaveAll" || op == "RestoreAll"
 	if noLS && isLS && op != "ReplaceDb" && op != "SaveCopy" && op != "SaveAll" && op != "RestoreAll" {
 		return "skip", false
@@ -599,6 +599,8 @@ func (r *Runner) Step(st []any, noLS bool) (res string, ack bool) {
 		return r.gateStep(), false
 	case "CkCancel": // the context the parked checkpoint was called with is cancelled (its request timed out)
 		return r.gateCancel(), false
+	case "LocalLoss": // local level-0 files vanish / rot while litestream is up or down: newest | all | corrupt
+		return r.localLoss(argStr(st, 1, "newest")), false
 	case "LsClose":
 		if !r.lsUp {
 			return "skip", false
